@@ -27,6 +27,50 @@ def make_docs(rng, n):
     return docs
 
 
+# (spelling in the QML source, string it denotes in ECMAScript).  A document may be rejected (qmluic supports a subset of the
+# escapes); if it is accepted the string read back from the .ui must be the denoted one.
+SPELLINGS = [
+    ('"Save changes \\\nbefore closing?"', "Save changes before closing?"),       # line continuation: contributes nothing
+    ('"a\\\r\nb"', "ab"), ('"a\\\rb"', "ab"), ("'x \\\n y'", "x  y"), ('"\\\n"', ""), ('"tail\\\n"', "tail"),
+    ('"a\\/b"', "a/b"), ('"a\\-b"', "a-b"), ('"\\q"', "q"), ('"it\\\'s"', "it's"), ("'say \\\"hi\\\"'", 'say "hi"'),
+    ('"\\x41\\u0042\\u{43}"', "ABC"), ('"\\u{1F600}"', "\U0001F600"), ('"\\uD83D\\uDE00"', "\U0001F600"),
+    ('"a\\u2028b"', "a\u2028b"), ('"\\t|\\v|\\f|\\b"', "\t|\x0b|\x0c|\x08"), ('"]]\\x3e"', "]]>"), ('"&amp;\\x26"', "&amp;&"),
+]
+
+
+def spelled_literals(v, rng, pools, distinct):
+    sites = ('QLabel { text: %s }', 'QLabel { text: qsTr(%s) }', 'QComboBox { model: [%s, "z"] }', 'QLabel { toolTip: "<" + %s }')
+    docs, meta = [], []
+    for sp, den in SPELLINGS:
+        for site in sites:
+            if "\x0b" in den or "\x0c" in den or "\x08" in den:
+                continue   # characters XML cannot carry: covered by the listed finding, not by this table
+            qml = "import qmluic.QtWidgets\nQWidget {\n    QVBoxLayout {\n        %s\n    }\n}\n" % (site % sp)
+            docs.append({"id": "s%d" % len(docs), "source": qml, "modes": ["generate"], "want": ["ui"]})
+            meta.append((sp, den, site, qml))
+    out = common.translate(docs, tag="c09s")
+    n = 0
+    for j, (sp, den, site, qml) in zip(docs, meta):
+        rs = out.results.get(j["id"])
+        if not rs or rs[0].get("panic") or not doccheck.accepted(rs[0]):
+            pools["spelling-rejected"] = pools.get("spelling-rejected", 0) + 1
+            continue
+        want = ("<" + den) if "toolTip" in site else den
+        try:
+            root = uiparse.parse(rs[0]["ui"])
+        except uiparse.UiSyntaxError as e:
+            v.violation("ill-formed", "spelled literal %s: .ui rejected by expat: %s" % (sp, e), {"qml": qml, "ui": rs[0]["ui"]})
+            continue
+        texts = [x.text for x in root.walk() if x.tag == "string"]
+        n += 1
+        pools["spelling-accepted"] = pools.get("spelling-accepted", 0) + 1
+        distinct.add(("spelling", sp, site))
+        if want not in texts:
+            v.violation("string-readback", "literal spelled %s denotes %r, the .ui holds %r" % (sp, want, texts),
+                        {"qml": qml, "ui": rs[0]["ui"], "expected": want, "observed": texts})
+    return n
+
+
 def run(tier, seed, replay=None):
     v = common.Verdict("C09", tier, seed)
     rng = common.rng_for(seed, "C09", tier)
@@ -140,6 +184,7 @@ def run(tier, seed, replay=None):
                 elif len(samples) < 5 and pool not in [x.get("pool") for x in samples] and pool != "plain":
                     samples.append({"pool": pool, "binding": "%s.%s" % (b.owner.cls, ".".join(b.path)), "source": b.src,
                                     "denotes": s, "read_back_equal": True})
+    n_spelled = spelled_literals(v, rng, pools, distinct)
     total = n_acc + n_rej
     if total and n_rej > 0.25 * total:
         v.inconc("generator produced %d rejected documents of %d: %r" % (n_rej, total, rejected_msgs))
